@@ -133,13 +133,22 @@ func TestVerif_C19_BFD(t *testing.T) {
 	r.Bounds["mutation_byte_values"] = 256
 	r.Bounds["mutation_pairs"] = opt.Pairs
 
+	r.Bounds["all_strings_len4_cap_eq_len_only"] = vr.Thorough()
 	r.Parallel(W, func(w int, cr *vr.Report) {
 		c := c19lib.NewChecker(cr)
 		defer c.Done()
 		e := entries[0]
-		c19lib.Strings(full, 0, maxLen, w, W, func(s []byte) {
+		c19lib.Strings(full, 0, 3, w, W, func(s []byte) {
 			c.Check(e, s, "all-strings")
 		})
+		if maxLen > 3 {
+			// 4.3 G strings: executed with cap==len only (the two poison-slack executions are skipped)
+			t := *e
+			t.TightOnly = true
+			c19lib.Strings(full, 4, maxLen, w, W, func(s []byte) {
+				c.Check(&t, s, "all-strings")
+			})
+		}
 		for si, seed := range seeds {
 			c19lib.Mutants(seed, opt, w, W, func(m []byte, note string) {
 				o := c.Check(e, m, fmt.Sprintf("seed#%d %s", si, note))
